@@ -134,6 +134,8 @@ pub fn gen_c01(tier: &str, seed: u64) -> Vec<Vec<String>> {
                         6 => cap.unwrap_or(10).min(300) + 1,
                         _ => r.range(1, 30),
                     };
+                    // now and then a record far above every buffer the crate keeps between records
+                    let len = if r.chance(1, 120) { *r.pick(&[20_000u64, 70_000, 140_000]) } else { len };
                     c.push(format!("W {} {} -", hex(&record(seq, len.max(1))), clock.tick(&mut r)));
                     seq += 1;
                     if cap.is_none() && r.chance(1, 3) {
@@ -433,6 +435,7 @@ fn gen_c06_across_month_end(tier: &str, seed: u64) -> Vec<Vec<String>> {
 }
 pub fn gen_c07(tier: &str, seed: u64) -> Vec<Vec<String>> {
     let mut v = gen_c07_sync(tier, seed);
+    v.extend(gen_c07_big(tier, seed));
     // the same histories with the cleanup in the background thread: after shutdown() the
     // directory must be what the synchronous cleanup leaves
     v.extend(gen_with(Opts { prop: "C07", size: true, age: true, force_rot: true, restarts: 1, cleanup: true, faults: false, ext: false, modes: false, max_ops: 40, namings: ALL, foreign: false, exist: false, bg: 1 }, tier, seed ^ 0xB6, 150, 3000));
@@ -446,6 +449,42 @@ pub fn gen_c07(tier: &str, seed: u64) -> Vec<Vec<String>> {
     }
     v
 }
+/// C07: rotated files of a few hundred kB with poorly compressible content (the compressed form
+/// is far larger than any internal buffer of the encoder): byte-exact round trip of the `.gz`
+fn gen_c07_big(tier: &str, seed: u64) -> Vec<Vec<String>> {
+    let mut root = Rng::new(seed ^ 0xC07B16);
+    let mut cases = Vec::new();
+    for k in 0..n_cases(tier, 3, 24) {
+        let mut r = root.fork();
+        let naming = *r.pick(&["num", "numd", "ts"]);
+        let cleanup = *r.pick(&["0,3", "1,2", "0,1"]);
+        let mut c = vec![format!("CASE flw C07 big{k}"), "SPEC 617070 _ s6c6f67 _ 0".to_string()];
+        c.push(format!("CFG {}", cfg_line(&Some(format!("200000;_;{naming};{cleanup}")), false, *r.pick(&[None, Some(8192u64)]), false, true)));
+        let mut clock = Clock::new(&mut r);
+        let mut x = r.next() | 1;
+        for seq in 0..r.range(16, 30) {
+            let len = r.range(20_000, 45_000) as usize;
+            let mut line = format!("{seq}:").into_bytes();
+            while line.len() + 1 < len {
+                x ^= x << 13; x ^= x >> 7; x ^= x << 17;
+                // printable ASCII, ~6.5 bits per byte: compresses badly
+                line.extend(x.to_le_bytes().iter().map(|b| 0x21 + b % 94));
+            }
+            line.truncate(len - 1);
+            line.push(b'\n');
+            clock.epoch += 1;
+            c.push(format!("W {} {} -", hex(&line), clock.tick(&mut r)));
+        }
+        c.push("SHUT".into());
+        c.push("READ".into());
+        c.push("PARTS".into());
+        c.push("SNAP".into());
+        c.push("END".into());
+        cases.push(c);
+    }
+    cases
+}
+
 fn gen_c07_sync(tier: &str, seed: u64) -> Vec<Vec<String>> {
     gen_with(Opts { prop: "C07", size: true, age: true, force_rot: true, restarts: 2, cleanup: true, faults: false, ext: false, modes: false, max_ops: 40, namings: ALL, foreign: false, exist: false, bg: 0 }, tier, seed, 500, 6000)
 }
@@ -565,6 +604,15 @@ pub fn gen_c04(tier: &str, seed: u64) -> Vec<Vec<String>> {
             }
         }
         // the point at which the logger ends: shutdown() or drop of the last handle; read immediately
+        // (a large buffer, so that what a skipped flush leaves behind is not written out by the next record)
+        if !is_async && cap == Some(8192) && (rot.is_none() || n == 300) && r.chance(1, 2) {
+            // ends with flush() under concurrent logging (nothing is compared afterwards: the other
+            // threads' records are not part of the history)
+            c.push("LFLUSHC".into());
+            c.push("END".into());
+            cases.push(c);
+            continue;
+        }
         c.push(match r.below(4) { 0 | 1 => "LDROPALL".into(), 2 => "LSHUT".into(), _ => "LSHUT2".to_string() });
         c.push("READ".into());
         c.push("PARTS".into());
